@@ -126,7 +126,7 @@ var c12Worker *Worker
 
 func c12Eval(c *Ctx, cs Case) {
 	if c12Worker == nil {
-		c12Worker = c.NewWorker(3<<20)
+		c12Worker = c.NewWorker(3 << 20)
 	}
 	opsJ, _ := json.Marshal(cs["ops"])
 	preJ, _ := json.Marshal(cs["pre"])
